@@ -320,7 +320,7 @@ Section Reassembly.
       destruct (step_nonfinal segs Hshape Hge2 l1 s rest _ Hp Hrest HR) as (x' & Hstep & HR').
       unfold G. rewrite (recv_frame_seg hs xid conv s0 s He).
       destruct (recv_seg_some conv s0 _ xid _ _ x' Hd Hstep) as (H1 & H2 & H3 & H4).
-      unfold RInv. rewrite H1, H2, H3, H4. repeat split; assumption.
+      unfold RInv. rewrite H1, H2, H3, H4. split; [exact HR'|]. repeat split; assumption.
   Qed.
 
   Theorem reassembly_segs l :
@@ -349,7 +349,8 @@ Section Reassembly.
     pose proof (step_final segs Hshape Hge2 l1 s _ Hp HR) as Hstep.
     unfold G at 1 2 3 4. rewrite (recv_frame_seg hs xid conv s0 s He).
     destruct (recv_seg_done conv s0 _ xid _ _ _ _ Hd Hstep) as (H1 & H2 & H3 & H4).
-    rewrite H1, H2, H3, H4, Hq, Hn, Hsg. repeat split; try reflexivity. exact Hprefix.
+    rewrite H1, H2, H3, H4, Hq, Hn, Hsg.
+    split; [reflexivity|]. split; [reflexivity|]. split; [reflexivity|]. split; [reflexivity|]. exact Hprefix.
   Qed.
 End Reassembly.
 
@@ -364,7 +365,8 @@ Lemma xfer_okb_spec hs mtu xid data : xfer_okb hs mtu xid data = true -> xfer_ok
 Proof.
   unfold xfer_okb, xfer_ok. rewrite !andb_true_iff, !N.ltb_lt, Nat.leb_le, wf_bytesb_spec, negb_true_iff.
   rewrite forallb_forall, Forall_forall.
-  intros [[[[[[[H1 H2] H3] H4] H5] H6] H7] H8]. repeat split; try assumption.
+  intros [[[[[[[H1 H2] H3] H4] H5] H6] H7] H8].
+  split; [exact H1|]. split; [exact H2|]. split; [|tauto].
   intros x Hx. apply wf_hintb_spec, H3, Hx.
 Qed.
 
@@ -406,9 +408,8 @@ Proof.
                 (segments_encodable hs mtu xid data Hok) Hfresh l Hpl) as R.
   cbn zeta in R. rewrite (segments_concat hs mtu data Hm) in R.
   destruct R as (R1 & R2 & _ & R4 & R5). cbn zeta.
-  rewrite !fold_left_map. repeat split; try assumption.
-  - intros p1 p2 E Hne. symmetry in E. apply map_eq_app in E as (l1 & l2 & El & E1 & E2). subst p1 p2.
-    rewrite fold_left_map. apply (R5 l1 l2 El). intros ->. apply Hne. reflexivity.
-  - intros p1 p2 E Hne. symmetry in E. apply map_eq_app in E as (l1 & l2 & El & E1 & E2). subst p1 p2.
-    rewrite fold_left_map. apply (R5 l1 l2 El). intros ->. apply Hne. reflexivity.
+  rewrite !fold_left_map.
+  split; [exact R1|]. split; [exact R2|]. split; [exact R4|].
+  intros p1 p2 E Hne. apply map_eq_app in E as (l1 & l2 & El & E1 & E2). subst p1 p2.
+  rewrite fold_left_map. apply (R5 l1 l2 El). intros ->. apply Hne. reflexivity.
 Qed.
